@@ -17,6 +17,23 @@ CHECKS = [
     },
 ]
 
+CHECKS.append({
+    "property_id": "C20",
+    "category": "proof",
+    "technique": "Lean 4 refinement proofs (union-find == quick-find reference for every history; Fenwick tree == "
+                 "plain array for every initial list and history, index walks regenerated from the source) + "
+                 "history-level correspondence",
+    "text": "Theorems uf_refines (every size, every in-range history of union/find/connected/count/sizes/components: "
+            "the Batteries.UnionFind-based mirror returns what the one-label-per-element reference returns), "
+            "qf_count_is_classes, qf_union_classes, fenwick_refines and fenwick_refines_zeros (every initial list, every "
+            "in-range history of update/prefix/range_sum equals the plain array). The Fenwick index expressions are "
+            "translated from data_structures.py on every run, so the theorems are re-checked against the current source; "
+            "random histories are run through the real classes and the models and every return value is compared.",
+    "note": "Trusted: Lean kernel + propext/Classical.choice/Quot.sound, the ast-based translator for the index walks, "
+            "the hand-written composition of Batteries.UnionFind operations (tie: roots returned by find are compared), "
+            "exactness of small-integer/dyadic doubles, the harness.",
+})
+
 _PENDING = "check not built yet in this round (planned in DESIGN.md §4); no claim made"
 NOT_APPLICABLE = [
     {"property_id": f"C{i:02d}", "reason": _PENDING}
